@@ -837,6 +837,10 @@ func main() {
 	maxDev := ev.Pick(r, 2, 3)
 	ls := labels(r.Thorough())
 	sort.SliceStable(ls, func(i, j int) bool { return ls[i].name < ls[j].name })
+	// the bounded side families first: the tree enumeration below may use up the thorough deadline
+	twoRealRoots(r, ls)
+	twoDifferentRoots(r, ls)
+	wideDirectories(r)
 	completedNodes := -1
 	for n := 0; n <= maxNodes && !r.Expired(); n++ {
 		trees := genTrees(ls, n)
@@ -899,9 +903,6 @@ func main() {
 		}
 		r.Set(fmt.Sprintf("trees_with_%d_nodes", n), len(valid))
 	}
-	twoRealRoots(r, ls)
-	twoDifferentRoots(r, ls)
-	wideDirectories(r)
 	r.Set("bound", map[string]any{"max_nodes_completed": completedNodes, "max_option_deviations": maxDev, "extractor_sets": len(exSets)})
 	r.Assume("reference dispatch model (this file, ~200 lines) states git's .gitignore semantics for the 5-pattern alphabet and the skip rules of the property text")
 	r.Assume("regular-expression and glob *matching* are taken from the same libraries the implementation uses; only the dispatch logic is under test")
